@@ -26,6 +26,10 @@ impl SortedDltMessage {
 //@   spec
 //@|    ensures r == self.spec_cmp(other), // O:sort.cmp (calculated time first, then the original index: ties keep their order)
 //@ end
+//@ extract src/utils/mod.rs <PartialOrd for SortedDltMessage>::partial_cmp
+//@   spec
+//@|    ensures r == Some(self.spec_cmp(other)), // O:sort.partial_cmp (the operators BinaryHeap uses agree with cmp)
+//@ end
 }
 
 // R7/R12 models (as in unit filterstream): the inflow Receiver and the outflow closure
@@ -45,45 +49,59 @@ pub trait VSink: Sized {
             r is Ok ==> final(self).log() == old(self).log().push(m),
             r is Err ==> final(self).log() == old(self).log();
 }
-// BinaryHeap<Reverse<SortedDltMessage>> with a multiset view (only "what is in it" matters for the permutation clause)
+// BinaryHeap<Reverse<SortedDltMessage>> through a ghost view: the entries as a sequence in unspecified order (R11).
+// BinaryHeap<Reverse<T>> is a min-heap w.r.t. T's order: peek/pop yield an entry that no other entry is Less than.
 #[verifier::external_type_specification]
 #[verifier::external_body]
 #[verifier::accept_recursive_types(T)]
 #[verifier::reject_recursive_types(A)]
 pub struct ExBinaryHeap<T, A: Allocator>(BinaryHeap<T, A>);
 pub type VxHeap = BinaryHeap<VxReverse<SortedDltMessage>>;
-pub uninterp spec fn heap_ms(h: &VxHeap) -> Multiset<DltMessage>;
-pub uninterp spec fn heap_bounded(h: &VxHeap, b: int) -> bool;   // every entry's calculated time is at most b
+pub uninterp spec fn heap_view(h: &VxHeap) -> Seq<SortedDltMessage>;
+pub uninterp spec fn vx_min_idx(v: Seq<SortedDltMessage>) -> int;   // position of the entry that peek/pop take
+pub open spec fn is_min_at(v: Seq<SortedDltMessage>, i: int) -> bool {
+    0 <= i < v.len() && forall|j: int| 0 <= j < v.len() ==> !(#[trigger] v[j].spec_cmp(&v[i]) is Less)
+}
+pub open spec fn msgs_of(v: Seq<SortedDltMessage>) -> Seq<DltMessage> { v.map_values(|e: SortedDltMessage| e.m) }
+pub open spec fn heap_ms(h: &VxHeap) -> Multiset<DltMessage> { to_ms(msgs_of(heap_view(h))) }
+pub open spec fn all_bounded(v: Seq<SortedDltMessage>, b: int) -> bool { forall|j: int| 0 <= j < v.len() ==> (#[trigger] v[j]).calculated_time_us <= b }
 pub open spec fn T_B() -> int { 0x20_0000_0000_0000 }
 #[verifier::external_body]
 pub fn vx_heap_new(cap: usize) -> (r: VxHeap)
-    ensures heap_ms(&r) == Multiset::<DltMessage>::empty(), heap_bounded(&r, T_B()),
+    ensures heap_view(&r) == Seq::<SortedDltMessage>::empty(),
 { unimplemented!() }
 #[verifier::external_body]
 pub fn vx_heap_push(h: &mut VxHeap, e: VxReverse<SortedDltMessage>)
-    ensures heap_ms(final(h)) == heap_ms(old(h)).insert(e.0.m),
-        heap_bounded(old(h), T_B()) && e.0.calculated_time_us <= T_B() ==> heap_bounded(final(h), T_B()),
+    ensures heap_view(final(h)) == heap_view(old(h)).push(e.0),
 { unimplemented!() }
 #[verifier::external_body]
 pub fn vx_heap_peek(h: &VxHeap) -> (r: Option<&VxReverse<SortedDltMessage>>)
-    ensures r is Some <==> heap_ms(h).len() > 0, r is Some ==> heap_ms(h).count(r->Some_0.0.m) > 0,
-        r is Some && heap_bounded(h, T_B()) ==> r->Some_0.0.calculated_time_us <= T_B(),
+    ensures
+        r is Some <==> heap_view(h).len() > 0,
+        r is Some ==> is_min_at(heap_view(h), vx_min_idx(heap_view(h))) && r->Some_0.0 == heap_view(h)[vx_min_idx(heap_view(h))],
 { unimplemented!() }
 #[verifier::external_body]
 pub fn vx_heap_pop(h: &mut VxHeap) -> (r: Option<VxReverse<SortedDltMessage>>)
     ensures
-        r is Some <==> heap_ms(old(h)).len() > 0,
-        r is Some ==> heap_ms(old(h)).count(r->Some_0.0.m) > 0 && heap_ms(final(h)) == heap_ms(old(h)).remove(r->Some_0.0.m),
-        r is None ==> heap_ms(final(h)) == heap_ms(old(h)),
-        heap_bounded(old(h), T_B()) ==> heap_bounded(final(h), T_B()),
+        r is Some <==> heap_view(old(h)).len() > 0,
+        r is Some ==> is_min_at(heap_view(old(h)), vx_min_idx(heap_view(old(h)))) && r->Some_0.0 == heap_view(old(h))[vx_min_idx(heap_view(old(h)))]
+            && heap_view(final(h)) == heap_view(old(h)).remove(vx_min_idx(heap_view(old(h)))),
+        r is None ==> heap_view(final(h)) == heap_view(old(h)),
 { unimplemented!() }
-// R11: the two closures of buffer_sort_messages (lifecycle start-time cache over evmap/BTreeMap; sliding-window maximum of
-// buffering delays over HashMap/VecDeque) only decide WHEN a message is released. They are replaced by stubs returning an
-// arbitrary bounded value: the permutation clause holds for every such value.
+// R11: the two closures of buffer_sort_messages are cut (lifecycle start-time cache over evmap/BTreeMap; sliding-window maximum
+// of buffering delays over HashMap/VecDeque/max_by_key) and replaced by stubs:
+//  - the lifecycle start time is a function of the lifecycle id for the duration of the call (that is what the cache
+//    `lc_map` provides: "cached with the first value"), at most 2^53 us;
+//  - the release threshold returned by update_max_buffering_delays is arbitrary, but never below the configured minimum
+//    (the closure returns `min_buffer_delay_us + <window maximum>` or the unchanged previous value) and at most 2^62 us.
+// The permutation clause holds for every such value; the ordering clause uses "never below the minimum".
+pub uninterp spec fn lc_start(lc: u32) -> u64;
 #[verifier::external_body]
-pub fn vx_get_lc_start_time(lc: u32) -> (r: u64) ensures r <= 0x20_0000_0000_0000 { unimplemented!() }
+pub fn vx_get_lc_start_time(lc: u32) -> (r: u64) ensures r == lc_start(lc), r <= 0x20_0000_0000_0000 { unimplemented!() }
 #[verifier::external_body]
-pub fn vx_update_max_buffering_delays(cur: u64, ecu: &DltChar4, lc: &u32, reception_us: u64, delay: u64) -> (r: u64) ensures r <= 0x4000_0000_0000_0000 { unimplemented!() }
+pub fn vx_update_max_buffering_delays(min_buffer_delay_us: u64, cur: u64, ecu: &DltChar4, lc: &u32, reception_us: u64, delay: u64) -> (r: u64)
+    ensures r <= 0x4000_0000_0000_0000, cur >= min_buffer_delay_us ==> r >= min_buffer_delay_us,
+{ unimplemented!() }
 
 pub open spec fn to_ms(s: Seq<DltMessage>) -> Multiset<DltMessage> { s.to_multiset() }
 pub proof fn lemma_ms_len0(m: Multiset<DltMessage>)
@@ -104,6 +122,64 @@ pub proof fn lemma_ms_empty_seq()
     Seq::<DltMessage>::empty().to_multiset_ensures();
     lemma_ms_len0(Seq::<DltMessage>::empty().to_multiset());
 }
+pub proof fn lemma_view_push(v: Seq<SortedDltMessage>, e: SortedDltMessage)
+    ensures to_ms(msgs_of(v.push(e))) == to_ms(msgs_of(v)).insert(e.m),
+{
+    assert(msgs_of(v.push(e)) =~= msgs_of(v).push(e.m));
+    msgs_of(v).to_multiset_ensures();
+}
+pub proof fn lemma_view_remove(v: Seq<SortedDltMessage>, i: int)
+    requires 0 <= i < v.len(),
+    ensures to_ms(msgs_of(v.remove(i))) == to_ms(msgs_of(v)).remove(v[i].m), to_ms(msgs_of(v)).count(v[i].m) > 0,
+{
+    assert(msgs_of(v.remove(i)) =~= msgs_of(v).remove(i));
+    msgs_of(v).to_multiset_ensures();
+    assert(msgs_of(v)[i] == v[i].m);
+    assert(msgs_of(v).contains(v[i].m));
+}
+
+// ---- the ordering clause ----
+// the time a message is sorted by: lifecycle start + timestamp, capped at the reception time; the reception time for control requests
+pub open spec fn calc_of(m: DltMessage) -> int {
+    let is_req = match m.extended_header { Some(e) => (e.verb_mstp_mtin >> 1) & 0x07 == 3 && e.verb_mstp_mtin >> 4 == 1, None => false };
+    let c = if is_req { m.reception_time_us as int } else { lc_start(m.lifecycle) as int + m.timestamp_dms as int * 100 };
+    if c > m.reception_time_us { m.reception_time_us as int } else { c }
+}
+// the hypothesis of the ordering clause: reception times never decrease and no calculated time lies more than min_delay before
+// the reception time
+pub open spec fn ordered_input(ms: Seq<DltMessage>, min_delay: int) -> bool {
+    &&& forall|i: int, j: int| 0 <= i < j < ms.len() ==> (#[trigger] ms[i]).reception_time_us <= (#[trigger] ms[j]).reception_time_us
+    &&& forall|i: int| 0 <= i < ms.len() ==> calc_of(#[trigger] ms[i]) + min_delay >= ms[i].reception_time_us
+}
+pub open spec fn keys_ok(v: Seq<SortedDltMessage>) -> bool { forall|i: int| 0 <= i < v.len() ==> (#[trigger] v[i]).calculated_time_us == calc_of(v[i].m) }
+// sorted by (calculated time, index): no later element is Less than an earlier one
+pub open spec fn sorted_keys(v: Seq<SortedDltMessage>) -> bool { forall|i: int, j: int| 0 <= i < j < v.len() ==> !(#[trigger] v[j].spec_cmp(&#[trigger] v[i]) is Less) }
+// nothing in `hp` is Less than anything in `out`
+pub open spec fn all_le(out: Seq<SortedDltMessage>, hp: Seq<SortedDltMessage>) -> bool {
+    forall|i: int, j: int| 0 <= i < out.len() && 0 <= j < hp.len() ==> !(#[trigger] hp[j].spec_cmp(&#[trigger] out[i]) is Less)
+}
+pub open spec fn all_released_before(out: Seq<SortedDltMessage>, min_delay: int, t: int) -> bool {
+    forall|i: int| 0 <= i < out.len() ==> (#[trigger] out[i]).calculated_time_us + min_delay < t
+}
+
+// releasing a minimum of the buffer keeps "delivered is sorted" and "nothing buffered is Less than anything delivered"
+pub proof fn lemma_release(out: Seq<SortedDltMessage>, hv: Seq<SortedDltMessage>, ix: int)
+    requires is_min_at(hv, ix), sorted_keys(out), all_le(out, hv),
+    ensures sorted_keys(out.push(hv[ix])), all_le(out.push(hv[ix]), hv.remove(ix)),
+{
+    let e = hv[ix];
+    let o2 = out.push(e);
+    let h2 = hv.remove(ix);
+    assert forall|i: int, j: int| 0 <= i < j < o2.len() implies !(#[trigger] o2[j].spec_cmp(&#[trigger] o2[i]) is Less) by {
+        assert(o2[i] == out[i]);
+        if j < out.len() { assert(o2[j] == out[j]); } else { assert(o2[j] == hv[ix]); }
+    }
+    assert forall|i: int, j: int| 0 <= i < o2.len() && 0 <= j < h2.len() implies !(#[trigger] h2[j].spec_cmp(&#[trigger] o2[i]) is Less) by {
+        let jj = if j < ix { j } else { j + 1 };
+        assert(h2[j] == hv[jj]);
+        if i < out.len() { assert(o2[i] == out[i]); } else { assert(o2[i] == hv[ix]); }
+    }
+}
 
 //@ extract src/utils/mod.rs fn buffer_sort_messages
 //@   sub R12 `<M, S, F: Fn(DltMessage) -> SendMsgFnReturnType>` => `<I: VRecv, S: VSink>`
@@ -119,7 +195,7 @@ pub proof fn lemma_ms_empty_seq()
 //@   cut R11 `let mut update_max_buffering_delays =`
 //@   sub R11 `std::collections::binary_heap::BinaryHeap::with_capacity(1024 * 1024)` => `vx_heap_new(1024 * 1024)`
 //@   sub R11 `get_lc_start_time(m.lifecycle)` => `vx_get_lc_start_time(m.lifecycle)`
-//@   sub R11 `update_max_buffering_delays(` => `vx_update_max_buffering_delays(`
+//@   sub R11 `update_max_buffering_delays(` => `vx_update_max_buffering_delays(min_buffer_delay_us,`
 //@   sub R11 `buffer.push(std::cmp::Reverse(sm))` => `vx_heap_push(&mut buffer, VxReverse(sm))`
 //@   sub R11 `buffer.peek()` => `vx_heap_peek(&buffer)`
 //@   sub R11 `buffer.pop()` => `vx_heap_pop(&mut buffer)` x2
@@ -133,21 +209,40 @@ pub proof fn lemma_ms_empty_seq()
 //@|    ensures
 //@|        // every received message is delivered exactly once and unaltered: the output is a permutation of the input
 //@|        r is Ok ==> to_ms(final(outflow).log()) == to_ms(old(outflow).log()).add(to_ms(inflow.rem())), // O:sort.permutation
+//@|        // under the bounded-delay hypothesis the delivered messages are ordered by (calculated time, index)
+//@|        r is Ok && ordered_input(inflow.rem(), min_buffer_delay_us as int) ==> exists|out: Seq<SortedDltMessage>|
+//@|            final(outflow).log() == old(outflow).log() + #[trigger] msgs_of(out) && keys_ok(out) && sorted_keys(out), // O:sort.ordered
 //@   hint before `^loop`
 //@|    let ghost ms0 = inflow.rem();
 //@|    let ghost log0 = outflow.log();
+//@|    let ghost hyp = ordered_input(ms0, min_buffer_delay_us as int);
+//@|    let ghost md = min_buffer_delay_us as int;
 //@|    let ghost mut k: int = 0;
-//@|    proof { assert(ms0.subrange(0, 0) =~= Seq::<DltMessage>::empty()); lemma_ms_empty_seq(); assert(to_ms(outflow.log()).add(heap_ms(&buffer)) =~= to_ms(log0).add(to_ms(ms0.subrange(0, 0)))); }
+//@|    let ghost mut out: Seq<SortedDltMessage> = Seq::empty();
+//@|    let ghost mut tl: int = 0;
+//@|    proof {
+//@|        assert(ms0.subrange(0, 0) =~= Seq::<DltMessage>::empty());
+//@|        lemma_ms_empty_seq();
+//@|        assert(msgs_of(heap_view(&buffer)) =~= Seq::<DltMessage>::empty());
+//@|        assert(to_ms(outflow.log()).add(heap_ms(&buffer)) =~= to_ms(log0).add(to_ms(ms0.subrange(0, 0))));
+//@|        assert(outflow.log() =~= log0 + msgs_of(out));
+//@|    }
 //@   loop 1
 //@|    invariant
-//@|        0 <= k <= ms0.len(), log0 == old(outflow).log(),
+//@|        0 <= k <= ms0.len(), log0 == old(outflow).log(), md == min_buffer_delay_us, hyp == ordered_input(ms0, md),
 //@|        inflow.rem() == ms0.skip(k),
 //@|        forall|i: int| 0 <= i < ms0.len() ==> (#[trigger] ms0[i]).reception_time_us <= T_B(),
-//@|        max_buffer_time_us <= 0x4000_0000_0000_0000, heap_bounded(&buffer, T_B()),
+//@|        min_buffer_delay_us <= max_buffer_time_us <= 0x4000_0000_0000_0000, all_bounded(heap_view(&buffer), T_B()),
 //@|        to_ms(outflow.log()).add(heap_ms(&buffer)) == to_ms(log0).add(to_ms(ms0.subrange(0, k))), // O:sort.inv.conservation (delivered + buffered = received so far)
+//@|        outflow.log() == log0 + msgs_of(out), keys_ok(out), keys_ok(heap_view(&buffer)), // O:sort.inv.keys
+//@|        k == 0 ==> out.len() == 0,
+//@|        k > 0 ==> tl == ms0[k - 1].reception_time_us,
+//@|        hyp ==> sorted_keys(out) && all_le(out, heap_view(&buffer)) && all_released_before(out, md, tl), // O:sort.inv.order
 //@|    ensures
-//@|        k == ms0.len(), heap_bounded(&buffer, T_B()),
+//@|        k == ms0.len(),
 //@|        to_ms(outflow.log()).add(heap_ms(&buffer)) == to_ms(log0).add(to_ms(ms0.subrange(0, k))),
+//@|        outflow.log() == log0 + msgs_of(out), keys_ok(out), keys_ok(heap_view(&buffer)),
+//@|        hyp ==> sorted_keys(out) && all_le(out, heap_view(&buffer)),
 //@|    decreases ms0.len() - k,
 //@   hint before `let msg_reception_time_us = m.reception_time_us;`
 //@|    proof {
@@ -156,44 +251,106 @@ pub proof fn lemma_ms_empty_seq()
 //@|        assert(ms0.subrange(0, k + 1) =~= ms0.subrange(0, k).push(ms0[k]));
 //@|        ms0.subrange(0, k).to_multiset_ensures();
 //@|        assert(to_ms(ms0.subrange(0, k + 1)) == to_ms(ms0.subrange(0, k)).insert(ms0[k]));
+//@|        // reception times never decrease: everything released so far was released before this message's reception time, too
+//@|        if hyp { assert(all_released_before(out, md, ms0[k].reception_time_us as int)); }
+//@|        tl = ms0[k].reception_time_us as int;
 //@|        k = k + 1;
 //@|    }
-//@|    let ghost hp0 = heap_ms(&buffer);
+//@|    let ghost hv0 = heap_view(&buffer);
 //@|    let ghost m0 = m;
+//@   hint before `vx_heap_push(&mut buffer`
+//@|    let ghost e_new = sm;
 //@   hint before `while let Some(sm) = vx_heap_peek(&buffer)`
 //@|    proof {
-//@|        assert(heap_ms(&buffer) == hp0.insert(m0));
-//@|        assert(to_ms(outflow.log()).add(hp0.insert(m0)) =~= to_ms(outflow.log()).add(hp0).insert(m0));
+//@|        let hv1 = heap_view(&buffer);
+//@|        assert(hv1 == hv0.push(e_new));
+//@|        lemma_view_push(hv0, e_new);
+//@|        assert(e_new.m == m0 && e_new.calculated_time_us == calc_of(m0)); // O:sort.key (the sort key is the calculated time of the property)
+//@|        assert(to_ms(outflow.log()).add(heap_ms(&buffer)) =~= to_ms(outflow.log()).add(to_ms(msgs_of(hv0))).insert(m0));
 //@|        assert(to_ms(outflow.log()).add(heap_ms(&buffer)) =~= to_ms(log0).add(to_ms(ms0.subrange(0, k))));
+//@|        assert(keys_ok(hv1)) by { assert forall|j: int| 0 <= j < hv1.len() implies (#[trigger] hv1[j]).calculated_time_us == calc_of(hv1[j].m) by { if j < hv0.len() { assert(hv1[j] == hv0[j]); } } }
+//@|        assert(all_bounded(hv1, T_B())) by { assert forall|j: int| 0 <= j < hv1.len() implies (#[trigger] hv1[j]).calculated_time_us <= T_B() by { if j < hv0.len() { assert(hv1[j] == hv0[j]); } } }
+//@|        if hyp {
+//@|            // the new message's calculated time is later than that of everything released so far
+//@|            assert(calc_of(ms0[k - 1]) + md >= ms0[k - 1].reception_time_us);
+//@|            assert(all_le(out, hv1)) by {
+//@|                assert forall|i: int, j: int| 0 <= i < out.len() && 0 <= j < hv1.len() implies !(#[trigger] hv1[j].spec_cmp(&#[trigger] out[i]) is Less) by {
+//@|                    if j < hv0.len() { assert(hv1[j] == hv0[j]); } else { assert(out[i].calculated_time_us + md < tl); }
+//@|                }
+//@|            }
+//@|        }
 //@|    }
 //@   loop 2
 //@|    invariant
-//@|        0 <= k <= ms0.len(), log0 == old(outflow).log(), msg_reception_time_us <= T_B(),
-//@|        max_buffer_time_us <= 0x4000_0000_0000_0000, heap_bounded(&buffer, T_B()),
+//@|        0 < k <= ms0.len(), log0 == old(outflow).log(), msg_reception_time_us <= T_B(), md == min_buffer_delay_us, hyp == ordered_input(ms0, md),
+//@|        min_buffer_delay_us <= max_buffer_time_us <= 0x4000_0000_0000_0000, all_bounded(heap_view(&buffer), T_B()),
 //@|        to_ms(outflow.log()).add(heap_ms(&buffer)) == to_ms(log0).add(to_ms(ms0.subrange(0, k))), // O:sort.inv.release
-//@|    decreases heap_ms(&buffer).len(),
+//@|        outflow.log() == log0 + msgs_of(out), keys_ok(out), keys_ok(heap_view(&buffer)), // O:sort.inv.release.keys
+//@|        tl == msg_reception_time_us,
+//@|        hyp ==> sorted_keys(out) && all_le(out, heap_view(&buffer)) && all_released_before(out, md, tl), // O:sort.inv.release.order
+//@|    decreases heap_view(&buffer).len(),
 //@   hint before `let sm2 = vx_heap_pop(&mut buffer).unwrap();`
 //@|    let ghost lg = outflow.log();
-//@|    let ghost hp = heap_ms(&buffer);
-//@|    proof { lg.to_multiset_ensures(); }
+//@|    let ghost hv = heap_view(&buffer);
+//@|    let ghost ix = vx_min_idx(hv);
+//@|    let ghost e = hv[ix];
+//@|    proof { lg.to_multiset_ensures(); lemma_view_remove(hv, ix); }
 //@   hint after `outflow.send(sm2.0.m)?;`
-//@|    proof { assert(to_ms(outflow.log()).add(heap_ms(&buffer)) =~= to_ms(lg).add(hp)); }
+//@|    proof {
+//@|        let hv2 = heap_view(&buffer);
+//@|        assert(hv2 == hv.remove(ix));
+//@|        assert(to_ms(outflow.log()).add(heap_ms(&buffer)) =~= to_ms(lg).add(to_ms(msgs_of(hv))));
+//@|        assert(msgs_of(out.push(e)) =~= msgs_of(out).push(e.m));
+//@|        assert(outflow.log() =~= log0 + msgs_of(out.push(e)));
+//@|        assert(keys_ok(out.push(e))) by { assert forall|i: int| 0 <= i < out.push(e).len() implies (#[trigger] out.push(e)[i]).calculated_time_us == calc_of(out.push(e)[i].m) by { if i < out.len() { assert(out.push(e)[i] == out[i]); } } }
+//@|        assert(keys_ok(hv2)) by { assert forall|j: int| 0 <= j < hv2.len() implies (#[trigger] hv2[j]).calculated_time_us == calc_of(hv2[j].m) by { if j < ix { assert(hv2[j] == hv[j]); } else { assert(hv2[j] == hv[j + 1]); } } }
+//@|        assert(all_bounded(hv2, T_B())) by { assert forall|j: int| 0 <= j < hv2.len() implies (#[trigger] hv2[j]).calculated_time_us <= T_B() by { if j < ix { assert(hv2[j] == hv[j]); } else { assert(hv2[j] == hv[j + 1]); } } }
+//@|        if hyp {
+//@|            lemma_release(out, hv, ix);
+//@|            // released only when older than the threshold, which is never below the configured minimum
+//@|            assert(e.calculated_time_us + md < tl); // O:sort.release_not_early
+//@|            assert(all_released_before(out.push(e), md, tl)) by { assert forall|i: int| 0 <= i < out.push(e).len() implies (#[trigger] out.push(e)[i]).calculated_time_us + md < tl by { if i < out.len() { assert(out.push(e)[i] == out[i]); } } }
+//@|        }
+//@|        out = out.push(e);
+//@|    }
 //@   loop 3
 //@|    invariant
-//@|        log0 == old(outflow).log(),
+//@|        log0 == old(outflow).log(), hvg == heap_view(&buffer),
 //@|        to_ms(outflow.log()).add(heap_ms(&buffer)) == to_ms(log0).add(to_ms(ms0)), // O:sort.inv.flush
+//@|        outflow.log() == log0 + msgs_of(out), keys_ok(out), keys_ok(heap_view(&buffer)), // O:sort.inv.flush.keys
+//@|        hyp ==> sorted_keys(out) && all_le(out, heap_view(&buffer)), // O:sort.inv.flush.order
 //@|    ensures
-//@|        heap_ms(&buffer).len() == 0,
+//@|        heap_view(&buffer).len() == 0,
 //@|        to_ms(outflow.log()).add(heap_ms(&buffer)) == to_ms(log0).add(to_ms(ms0)),
-//@|    decreases heap_ms(&buffer).len(),
+//@|        outflow.log() == log0 + msgs_of(out), keys_ok(out),
+//@|        hyp ==> sorted_keys(out),
+//@|    decreases heap_view(&buffer).len(),
 //@   hint before `while let Some(sm) = vx_heap_pop(&mut buffer)`
 //@|    proof { assert(ms0.subrange(0, k) =~= ms0); }
+//@|    let ghost mut hvg = heap_view(&buffer);
 //@   hint before `outflow.send(sm.0.m)?;`
 //@|    let ghost lg3 = outflow.log();
-//@|    proof { lg3.to_multiset_ensures(); }
+//@|    let ghost ix = vx_min_idx(hvg);
+//@|    let ghost e = hvg[ix];
+//@|    proof { lg3.to_multiset_ensures(); lemma_view_remove(hvg, ix); }
 //@   hint after `outflow.send(sm.0.m)?;`
-//@|    proof { assert(to_ms(outflow.log()).add(heap_ms(&buffer)) =~= to_ms(log0).add(to_ms(ms0))); }
+//@|    proof {
+//@|        let hv2 = heap_view(&buffer);
+//@|        assert(hv2 == hvg.remove(ix));
+//@|        assert(to_ms(outflow.log()).add(heap_ms(&buffer)) =~= to_ms(lg3).add(to_ms(msgs_of(hvg))));
+//@|        assert(msgs_of(out.push(e)) =~= msgs_of(out).push(e.m));
+//@|        assert(outflow.log() =~= log0 + msgs_of(out.push(e)));
+//@|        assert(keys_ok(out.push(e))) by { assert forall|i: int| 0 <= i < out.push(e).len() implies (#[trigger] out.push(e)[i]).calculated_time_us == calc_of(out.push(e)[i].m) by { if i < out.len() { assert(out.push(e)[i] == out[i]); } } }
+//@|        assert(keys_ok(hv2)) by { assert forall|j: int| 0 <= j < hv2.len() implies (#[trigger] hv2[j]).calculated_time_us == calc_of(hv2[j].m) by { if j < ix { assert(hv2[j] == hvg[j]); } else { assert(hv2[j] == hvg[j + 1]); } } }
+//@|        if hyp { lemma_release(out, hvg, ix); }
+//@|        out = out.push(e);
+//@|        hvg = hv2;
+//@|    }
 //@   hint before `^Ok(())`
-//@|    proof { lemma_ms_len0(heap_ms(&buffer)); assert(to_ms(outflow.log()) =~= to_ms(log0).add(to_ms(ms0))); }
+//@|    proof {
+//@|        assert(msgs_of(heap_view(&buffer)) =~= Seq::<DltMessage>::empty());
+//@|        lemma_ms_empty_seq();
+//@|        assert(to_ms(outflow.log()) =~= to_ms(log0).add(to_ms(ms0)));
+//@|    }
 //@ end
 // ---- end of units/timesort/part.rs ----
